@@ -330,3 +330,13 @@ Fixpoint wfv (t : ty) (v : value) {struct t} : bool :=
                   | _ => wfv t' v && match tenc t' v with Some e => negb (is_empty_enc e) | None => false end
                   end
   end.
+
+(* ---------- header sizes (encode.go intsize / headsize, used by listEnd, Stream.Raw, ListSize) ---------- *)
+(* for size = 1; ; size++ { if i >>= 8; i == 0 { return size } } ; a uint64 is exhausted after 8 shifts *)
+Fixpoint intsize_loop (fuel : nat) (i size : N) : N :=
+  match fuel with
+  | O => size
+  | S f => let i' := i / 256 in if i' =? 0 then size else intsize_loop f i' (size + 1)
+  end.
+Definition intsize (i : N) : N := intsize_loop 8 i 1.
+Definition headsize (size : N) : N := if size <? 56 then 1 else 1 + intsize size.
